@@ -444,6 +444,8 @@ class _ExceptionalConditionChecker:
     def base_conditions(self, info):
         if info.region[1] > info.scope_region[1]:
             raise RefactoringError("Bad region selected for extract method")
+        if not info.extracted.strip():
+            raise RefactoringError("Bad region selected for extract method")
 
         end_line = info.region_lines[1]
         end_scope = info.global_scope.get_inner_scope_for_line(end_line)
